@@ -77,6 +77,23 @@ Batch(conds, actA, actI, st, node, pts) ==
         em2 == IF changed THEN Append(r[2], [k |-> "rule", v |-> all]) \o ActionEmissions(actA, actI, all) ELSE r[2]
     IN [cond |-> r[1], rule |-> all, em |-> em2]
 
+\* A set-value action writes a point to its target node with the rule as origin.  That point flows
+\* up through the rule's parent like any other, so the rule sees it and evaluates it as a batch of
+\* its own ("the latest matching point" includes points the rule wrote itself): feedback.
+\* Cascade = the batch, then one batch per set-value write it caused, in order, to the given depth.
+SetPoint(a) == [type |-> a.ptype, key |-> "", val |-> a.val, txt |-> a.txt]
+RECURSIVE Cascade(_, _, _, _, _, _, _)
+Cascade(conds, actA, actI, st, node, pts, depth) ==
+    LET b == Batch(conds, actA, actI, st, node, pts)
+        sets == SelectSeq(b.em, LAMBDA e : e.k = "set")
+        RECURSIVE follow(_, _, _)
+        follow(cur, em, i) ==
+            IF i > Len(sets) \/ depth = 0 THEN [cond |-> cur.cond, rule |-> cur.rule, em |-> em]
+            ELSE LET a == (IF sets[i].list = "A" THEN actA ELSE actI)[sets[i].j]
+                     r == Cascade(conds, actA, actI, cur, a.target, <<SetPoint(a)>>, depth - 1)
+                 IN follow([cond |-> r.cond, rule |-> r.rule], em \o r.em, i + 1)
+    IN follow([cond |-> b.cond, rule |-> b.rule], b.em, 1)
+
 \* ---- declarative
 LastMatch(c, node, pts) ==
     LET is == {j \in 1..Len(pts) : Matches(c, node, pts[j])}
